@@ -6,6 +6,7 @@ import SkNet.Lemmas.GnnLossModel
 import SkNet.Lemmas.GnnPredict
 import SkNet.Lemmas.GnnEquiv
 import SkNet.Lemmas.GnnNetwork
+import SkNet.Lemmas.GnnShapes
 
 namespace SkNet.C19
 open SkNet SkNet.Gnn SkNet.Gnn.Mat Finset
@@ -181,6 +182,75 @@ theorem bce_pinned_formula_is_not_the_gradient :
     ∃ G, bceLossGradientPinned (mk' 1 2 fun _ _ => (0 : ℝ)) [1] = .ok G ∧
       G.get 0 0 ≠ (Spec.bceGradient (mk' 1 2 fun _ _ => (0 : ℝ)) [1]).get 0 0 :=
   bce_pinned_not_gradient
+
+/-- **the layer returns a value exactly for the shapes on which the documented expression is defined**, and raises
+(`ValueError`, as numpy / scipy) otherwise -/
+theorem forward_defined_iff_shapes (cfg : LayerCfg) (A X W : Mat ℝ) (b : Option (List ℝ)) :
+    (∃ O, forward cfg A X W b = .ok O) ↔ Spec.shapesOk cfg.norm A X W b = true := by
+  rw [shapesOk_iff]
+  unfold forward
+  simp only [bind, Except.bind, pure, Except.pure]
+  rcases normalize_cases cfg.norm A with ⟨hsq, A1, hA1, hr1, hc1⟩ | ⟨hnsq, herr⟩
+  · rw [hA1]
+    simp only []
+    have hA2c : (if cfg.selfEmb then addSelfLoops A1 else A1).c = A.c := by
+      cases cfg.selfEmb <;> simp [addSelfLoops, hc1]
+    rcases matmul_cases (if cfg.selfEmb then addSelfLoops A1 else A1) X with ⟨h1, M1, hM1, _, hM1c⟩ | ⟨h1, herr1⟩
+    · rw [hM1]
+      simp only []
+      rcases matmul_cases M1 W with ⟨h2, M2, hM2, _, hM2c⟩ | ⟨h2, herr2⟩
+      · rw [hM2]
+        simp only []
+        rw [hA2c] at h1
+        rw [hM1c] at h2
+        cases b with
+        | none =>
+          simp only []
+          exact ⟨fun _ => ⟨h1, h2, fun _ h => (by cases h), hsq⟩, fun _ => ⟨_, rfl⟩⟩
+        | some bl =>
+          simp only [addBias]
+          by_cases hbl : bl.length = W.c
+          · rw [if_neg (by rw [hM2c]; exact not_not.mpr hbl)]
+            simp only []
+            exact ⟨fun _ => ⟨h1, h2, fun bl' h => (by cases h; exact hbl), hsq⟩, fun _ => ⟨_, rfl⟩⟩
+          · rw [if_pos (by rw [hM2c]; exact hbl)]
+            simp only []
+            exact ⟨fun ⟨_, h⟩ => (by cases h), fun ⟨_, _, h, _⟩ => absurd (h bl rfl) hbl⟩
+      · rw [herr2]
+        simp only []
+        rw [hM1c] at h2
+        exact ⟨fun ⟨_, h⟩ => (by cases h), fun ⟨_, h, _⟩ => absurd h h2⟩
+    · rw [herr1]
+      simp only []
+      rw [hA2c] at h1
+      exact ⟨fun ⟨_, h⟩ => (by cases h), fun ⟨h, _⟩ => absurd h h1⟩
+  · rw [herr]
+    simp only []
+    exact ⟨fun ⟨_, h⟩ => (by cases h), fun ⟨_, _, _, h⟩ => absurd h hnsq⟩
+
+
+/-- **the network is the composition of the documented layers**: for layers whose weights have the width of their
+input and whose biases have their own width, `GNNClassifier.forward` returns the documented layers composed. -/
+theorem gnn_forward_eq_def (n : Nat) (ls : List LayerFn)
+    (hb : ∀ l ∈ ls, ∀ bl, l.b = some bl → bl.length = l.c) :
+    ∀ (d : Nat) (x : Nat → Nat → ℝ), ∃ O,
+      gnnForward (buildLayers n id d ls) (mk' n d x) = .ok O ∧
+      Spec.gnnForward (buildLayers n id d ls) (mk' n d x) = some O := by
+  induction ls with
+  | nil => intro d x; exact ⟨_, rfl, rfl⟩
+  | cons l ls ih =>
+    intro d x
+    have hbl : ∀ bl, l.b = some bl → bl.length = l.c := hb l (List.mem_cons_self ..)
+    have hrest : ∀ l' ∈ ls, ∀ bl, l'.b = some bl → bl.length = l'.c := fun l' hl' => hb l' (List.mem_cons_of_mem _ hl')
+    obtain ⟨O, h1, h2⟩ := ih hrest l.c (fun i k => Spec.actFn l.cfg.act l.c
+      (fun k' => Spec.preAct l.cfg.norm l.cfg.selfEmb (mk' n n l.a) (mk' n d x) (mk' d l.c l.w) l.b i k') k)
+    refine ⟨O, ?_, ?_⟩
+    · simp only [buildLayers, gnnForward, id]
+      rw [forward_eq_def l.cfg n n d l.c l.a x l.w l.b hbl (fun _ => rfl)]
+      exact h1
+    · simp only [buildLayers, Spec.gnnForward, id]
+      rw [if_pos ((shapesOk_iff _ _ _ _ _).mpr ⟨rfl, rfl, hbl, fun _ => rfl⟩)]
+      exact h2
 
 /-- **the whole network is equivariant.** `GNNClassifier.forward` through any number of layers (each with its own,
 possibly sampled, adjacency, normalisation, activation, weight and bias): renumbering the nodes of every adjacency and
